@@ -1,9 +1,8 @@
 CONSTANTS
   Dev = {}
   MaxReq = 150
-  RT = 3
-  DefRT = 2
-  IdleCfg = 2
+  TickMs = 10000
+  StConfs <- St_3_2
   RqCap = 8
   ChanCap = 8
   MaxFrames = 0
